@@ -71,3 +71,19 @@ package network
 //@   ensures err != nil ==> exists a Int :: 0 <= a && a < seqlen(senders) && !msgOK(p, messages, seqat(senders, a, int)) && culprit(err, seqat(senders, a, int)) && (forall x V :: culprit(err, x) ==> (x == box(seqat(senders, a, int)) || culprit(res(messages.Get(seqat(senders, a, int)), 0).Validate(p, seqat(senders, a, int)), x)))
 //@   loop range(senders)
 //@     invariant forall a Int :: 0 <= a && a < $i ==> msgOK(p, messages, seqat(senders, a, int))
+
+// ---------------------------------------------------------------- non-member traffic is inert (C11)
+// The reader drops a frame whose transport-level sender is outside the session quorum BEFORE anything that can
+// change router state is done with it: the decode (whose failure is fatal) and the deposit are reached only for a frame
+// from a quorum member. (The loop is the reader goroutine's whole life; the recover() handler only latches a fatal
+// error after a panic and is not part of the claim.)
+//@ func (*routerCore).readLoop
+//@   property C11
+//@   uses sets
+// deposit's precondition boxesWF(c) is the monitor invariant of c.mu, which deposit acquires itself; the reader does
+// not hold the lock, so it is trusted here (listed as an assumption), not proved from the reader's state.
+//@   opt trustpre=deposit
+//@   loop #1
+//@     invariant true
+//@   assert before "message, err := serde.UnmarshalCBOR[routerMessage](serializedMessage)": sin(sset(c.quorumSet), box(from))
+//@   assert before "if !c.deposit(from, message) {": sin(sset(c.quorumSet), box(from))
